@@ -470,6 +470,10 @@ def c14(ctx, api):
     st, summ = api['run_tlc_to_harness'](ctx, 'carrier', 'GenCarrier', text, timeout=3000)
     acc.add('GenCarrier: %d x %d values, 14 x %d x 3 carrier assignments, 53 expressions'
             % (nvals, nvals, 16 if thorough else 9), st, summ)
+    st2, summ2 = api['run_tlc_to_harness'](ctx, 'arith', 'GenArith',
+                                           cfg(constants={'Emit': 'TRUE', 'Prop': '"C14"', 'Big': 'FALSE'}), timeout=3000)
+    acc.add('GenArith: operands up to 34 digits (2^53+1, 2^63 ...) with json / decimal / int64 / uint64 / float carriers mixed in one operation '
+            '(expected outcome from Decimal.tla)', st2, summ2)
     return acc.result(RULE_PINNED + '; assignments whose Go kind cannot hold a value exactly are skipped (counted in cases_skipped)',
                       extra={'cases_skipped_carrier_cannot_hold_value': sum(s.get('skipped', 0) for s in [summ])})
 
